@@ -1,7 +1,119 @@
 import Driver.Util
-/- Sub-protocol `C16`: not built yet. -/
+import ZxVerif.Spec.Driving
+/-
+Sub-protocol `C16` (all numbers hexadecimal):
+  toy <L> <t0> <t1> ...       frame length and cyclic instruction-length table of the toy machine
+  err <i0> ...                instruction indices whose execution reports an emulation error
+  bps <i0> ... | bpall <0|1>  breakpoint set (index of the *next* instruction, as `pc_callback` sees the
+                              new PC) / stop after every instruction
+  state <idx> <clocks>        start of a driving: s0 := cur := (idx, clocks), totals := 0
+  call fc <n> <limit> <fuel> <sw...> | call max 0 <limit> <fuel> <sw...>
+        -> <reason> <steps> <idx> <clocks> <passed> <measures> <duration> <swLeft> <K> <verdict>
+           K = frame boundaries passed since `state`; verdict = the spec's word on the *model's* state:
+           `ok`  (call ended at a frame boundary and cur = runToFrame K s0) | `mid` (not at a boundary)
+           | `diff <idx> <clocks>` (what runToFrame K s0 is instead)
+  want <K>                    -> <idx> <clocks> | none      runToFrame K s0 (adjudicates the real code)
+  rx <eofZero> <pos> <n> <data|-> <chunks...>
+        -> <out> <buf|-> <pos'> <reads> spec <out> <buf|-> <pos'>
+  seek <s|e|c> <[-]off> <pos> <len>   -> ok <pos'> | err sbs
+-/
 namespace Driver.C16
+open ZxVerif.Driving ZxVerif.Driving.Spec
 
-def proto : Driver.Proto := { σ := Unit, init := (), handle := fun s _ => (s, "unimplemented") }
+structure St where
+  L : Nat := 1
+  table : List Nat := [1]
+  errAt : List Nat := []
+  bps : List Nat := []
+  bpAll : Bool := false
+  s0 : Toy := ⟨0, 0⟩
+  cur : Toy := ⟨0, 0⟩
+  total : Nat := 0
+
+def St.mc (s : St) : Machine Toy := toyMachine s.L s.table s.errAt
+
+def reasonStr : Stop → String
+  | .completed => "completed" | .timeout => "timeout" | .breakpoint => "breakpoint"
+  | .error => "error" | .outOfFuel => "fuel"
+
+def outStr : Outcome → String
+  | .ok => "ok" | .err .unexpectedEof => "eof" | .err .seekBeforeStart => "sbs"
+  | .err .hostFailed => "host" | .diverged => "diverged"
+
+def bytesOrDash (bs : List Byte) : String := if bs.isEmpty then "-" else bytesHex bs
+
+def atBoundary (mode : Mode) (r : Stop) : Bool :=
+  match mode, r with
+  | .max, .timeout => true
+  | .frameCount n, .completed => decide (1 ≤ n)
+  | _, _ => false
+
+def signed? (s : String) : Option Int :=
+  if s.startsWith "-" then (hexNat? (s.drop 1).toString).map (fun n => -(n : Int))
+  else (hexNat? s).map (fun n => (n : Int))
+
+def doCall (s : St) (mode : Mode) (limit fuel : Nat) (sw : List Nat) : St × String :=
+  let bpAll := s.bpAll
+  let bps := s.bps
+  let c : Call Toy := ⟨mode, limit, fun _ m' => bpAll || bps.contains m'.idx⟩
+  let r := emulateFrames s.mc c fuel s.cur sw
+  let total := s.total + r.steps
+  let k := crossedSumTR s.mc total s.s0 0
+  let verdict :=
+    if atBoundary mode r.reason then
+      match runToFrame s.mc total k s.s0 with
+      | some t => if t = r.m then "ok" else s!"diff {toHex 4 t.idx} {toHex 5 t.clocks}"
+      | none => "diff none"
+    else "mid"
+  ({ s with cur := r.m, total := total },
+   s!"{reasonStr r.reason} {toHex 6 r.steps} {toHex 4 r.m.idx} {toHex 5 r.m.clocks} " ++
+   s!"{toHex 4 r.passed} {toHex 4 r.measures} {toHex 12 r.duration} {toHex 4 r.sw.length} " ++
+   s!"{toHex 4 k} {verdict}")
+
+def handle (s : St) : List String → St × String
+  | "toy" :: l :: tbl =>
+    if tbl.isEmpty then (s, "bad-op")
+    else ({ s with L := hexNatD l, table := tbl.map hexNatD }, "ok")
+  | "err" :: is => ({ s with errAt := is.map hexNatD }, "ok")
+  | "bps" :: is => ({ s with bps := is.map hexNatD }, "ok")
+  | ["bpall", b] => ({ s with bpAll := boolD b }, "ok")
+  | ["state", i, c] =>
+    let t : Toy := ⟨hexNatD i, hexNatD c⟩
+    ({ s with s0 := t, cur := t, total := 0 }, "ok")
+  | "call" :: "fc" :: n :: limit :: fuel :: sw =>
+    doCall s (.frameCount (hexNatD n)) (hexNatD limit) (hexNatD fuel) (sw.map hexNatD)
+  | "call" :: "max" :: _ :: limit :: fuel :: sw =>
+    doCall s .max (hexNatD limit) (hexNatD fuel) (sw.map hexNatD)
+  | ["want", k] =>
+    let kk := hexNatD k
+    match runToFrame s.mc (kk * s.L + 1) kk s.s0 with
+    | some t => (s, s!"{toHex 4 t.idx} {toHex 5 t.clocks}")
+    | none => (s, "none")
+  | "rx" :: ez :: pos :: n :: data :: chunks =>
+    let bytes := if data = "-" then [] else hexBytes data
+    let a : Asset := ⟨bytes, hexNatD pos, chunks.map hexNatD, boolD ez⟩
+    let r := readExact a (hexNatD n)
+    let sp := readExactSpec bytes (hexNatD pos) (hexNatD n)
+    (s, s!"{outStr r.1.out} {bytesOrDash r.1.data} {toHex 4 r.2.pos} " ++
+        s!"{toHex 4 (a.chunks.length - r.2.chunks.length)} " ++
+        s!"spec {outStr sp.out} {bytesOrDash sp.data} {toHex 4 (posAfter bytes (hexNatD pos) (hexNatD n))}")
+  | ["seek", kind, off, pos, len] =>
+    match signed? off with
+    | none => (s, "bad-op")
+    | some d =>
+      let a : Asset := ⟨List.replicate (hexNatD len) 0, hexNatD pos, [], false⟩
+      let sf? : Option SeekFrom :=
+        if kind = "s" then (if d < 0 then none else some (.start d.toNat))
+        else if kind = "e" then some (.fromEnd d)
+        else if kind = "c" then some (.current d) else none
+      match sf? with
+      | none => (s, "bad-op")
+      | some sf =>
+        match (a.seek sf).1 with
+        | .ok p => (s, s!"ok {toHex 4 p}")
+        | .error _ => (s, "err sbs")
+  | _ => (s, "bad-op")
+
+def proto : Driver.Proto := { σ := St, init := {}, handle := handle }
 
 end Driver.C16
